@@ -9,6 +9,7 @@ def run(ctx):
     from lib import replay
     replay.replay_fsort(ctx, res)
     res2 = ctx.cvc(fams, ["F-UNIQ"], functions=["uniq"])
+    ctx.cvc(["II", "LL"] if ctx.tier == "quick" else fams, ["F-LEAF"], functions=["bucket_append"])
     replay.replay_funiq(ctx, res2)
     # inputs of multiunion are activated before their vectors are gathered
     ctx.cvc(["II"] if ctx.tier == "quick" else ["II", "LL", "QQ"], ["T-USE"], functions=["multiunion_m"])
@@ -20,6 +21,7 @@ def run(ctx):
         "sorted vector duplicate-free - from its real body, for every n and content: given an ascending input (in place or "
         "into a disjoint vector) the m returned satisfies 1 <= m <= n, out[0..m) strictly ascending, every output is an input "
         "and every input an output; memcpy ranges in bounds, writes in bounds (quantifier-free queries: skolemised goals, named "
-        "witnesses). The distribution passes, quicksort, "
+        "witnesses). F-LEAF: bucket_append - the gather step that moves a slice of an input leaf to the end of the result - "
+        "appends exactly from->keys[i..i+n) after the untouched old entries (Bucket_grow executed in place). The distribution passes, quicksort, "
         "the gather loop and the Python fallback are NOT under contract: bounded stand-in multiunion_rt (both sides "
         "of the 800-element switch, extremes and top-bit keys, all operand kinds)." % ", ".join(fams))
